@@ -99,13 +99,13 @@ static void rd_free(uint8_t *p) { if (p && p != bigbuf) free(p); }
 static char trace[16000]; static size_t trace_n;
 #define TR(...) do { if (trace_n < (getenv("VP_TRACE") ? sizeof trace - 40 : 600)) trace_n += (size_t)snprintf(trace + trace_n, 40, __VA_ARGS__); } while (0)
 static long n_ambiguous;
-static long n_wraps, n_refusals, n_accepts, n_reads, n_peeks, n_enobufs, n_empty, n_drops, n_zero;
+static long n_wraps, n_refusals, n_accepts, n_reads, n_peeks, n_enobufs, n_empty, n_drops, n_zero, n_bare_reclaims;
 
 static int run_case(long kase, int overwrite)
 {
 	vprng_t r; vp_seed(&r, vp.seed, (uint64_t)kase);
 	int scls; uint32_t S = pick_size(&r, &scls);
-	int use_sem = vp_chance(&r, 1, 3);
+	int use_sem = vp_chance(&r, 1, 3); int sem_ahead = 0;
 	uint32_t flags = QB_RB_FLAG_CREATE | (overwrite ? QB_RB_FLAG_OVERWRITE : 0);
 	if (!use_sem) flags |= QB_RB_FLAG_NO_SEMAPHORE;
 	if (vp_chance(&r, 1, 4)) flags |= QB_RB_FLAG_SHARED_PROCESS;
@@ -202,12 +202,21 @@ static int run_case(long kase, int overwrite)
 			}
 			if (use_sem && !overwrite) {
 				ssize_t cu = qb_rb_chunks_used(rb);
-				if (cu != (ssize_t)dq_n)
+				if (sem_ahead ? cu < (ssize_t)dq_n : cu != (ssize_t)dq_n)
 					vp_violation("rb:chunks-used-mismatch", "chunks_used=%zd model=%zu", cu, dq_n);
 			}
 			continue;
 		}
 		/* ---- read side ---- */
+		if (!overwrite && vp_chance(&r, 1, 14)) {
+			/* qb_rb_chunk_reclaim() on its own: discards the oldest chunk without looking at it (no peek before), or does nothing
+			 * on an empty ring.  With the notifier the count of the semaphore is then ahead of the chunks: a later read gets past
+			 * the wait on a drained ring and must still find it empty, whatever the free space holds */
+			vp_desc("S=%u flags=0x%x op=%d bare-reclaim held=%zu", S, flags, op, dq_n);
+			qb_rb_chunk_reclaim(rb); n_bare_reclaims++; TR("rcl ");
+			if (dq_n > 0) { dq_pop(1); if (use_sem) sem_ahead++; }
+			continue;
+		}
 		int kind = (int)vp_u(&r, 10);   /* 0-5 read, 6 short read, 7-9 peek(+reclaim) */
 		if (kind == 6 && !(dq_n > 0 && DQ(0).len > 0)) kind = 0;
 		if (kind == 6 && overwrite) kind = 0; /* with drops the head is not known beforehand */
@@ -341,6 +350,7 @@ int main(int argc, char **argv)
 	vp_count("writes_accepted", n_accepts); vp_count("writes_refused", n_refusals);
 	vp_count("reads", n_reads); vp_count("peeks", n_peeks); vp_count("short_reads", n_enobufs);
 	vp_count("empty_results", n_empty); vp_count("wraparounds", n_wraps);
+	vp_count("reclaims_without_a_peek", n_bare_reclaims);
 	vp_count("overwritten_chunks", n_drops); vp_count("zero_length_chunks", n_zero); vp_count("rings_abandoned_ambiguous_tiny_chunk", n_ambiguous);
 	vp_finish();
 	return 0;
